@@ -6,15 +6,18 @@
 // Real code under test: CPPPreprocessor::skip_whitespace -> skip_comment -> skip_cpp_comment (with the real
 // _last_cpp_comment bookkeeping of skip_comment), CPPPreprocessor::peek, get_line_number / get_col_number / get_file.
 // Replaced (cut): CPPPreprocessor::get -- the real one deletes the finished InputFile and its std::istream at the end of
-// the input (a virtual destructor call that fans out over every stream class); the replacement below is a copy without
-// the delete -- and InputFile::get / InputFile::peek, copies that read a byte array instead of a std::istream (the
+// the input (a virtual destructor call that fans out over every stream class); see the replacement below -- and InputFile::get / InputFile::peek, copies that read a byte array instead of a std::istream (the
 // `while (c == '\r')` loop over a symbolic byte of the stream model unrolled to the bound at every get()).
 //
-// Driver: what the lexer does between tokens (get_next_token0: `_last_c = skip_whitespace(get())`), every byte that is
-// neither blank nor part of a comment counting as a one-byte token.
+// Driver: what the lexer does between tokens (get_next_token0: `_last_c = skip_whitespace(get())`, skip_whitespace being
+// `loop { c = skip_comment(c); if (!isspace(c)) return c; c = get(); }` plus a backslash-newline case): every byte that is
+// not inside a comment is handed to the real skip_comment and the next byte is fetched with get(), a byte that is neither
+// blank nor part of a comment counting as a one-byte token.  The driver makes these calls line by line, so that every
+// path is at the same input position when a line ends (the position stays a constant for the solver's front end).
 //
-// Input: n <= NMAX symbolic bytes over {'/', 'a', ' ', '\n'} followed by one '\n' (the file ends with a newline), of which
-// at most TOKMAX are code and at most CMAX follow a `//` on its line.
+// Input: LINES lines, the line WIDTHS are concrete (every tuple of widths in 0..WMAX with at most NMAX bytes in total is
+// enumerated by a concrete loop inside the query; slices [S_FROM, S_TO) per catalogue entry), the bytes of the lines are
+// symbolic over {'/', 'a', ' '}; every line ends with a newline.
 // Reference (independent scan of the bytes): a `//` comment runs to the end of its line; it continues the previous
 // block iff only blanks and ONE newline lie between the end of that block and this `//` (the block ended on the line
 // immediately before, no code, no blank line in between); otherwise it starts a new block.  Block text = the lines
@@ -25,17 +28,17 @@
 #include <string>
 #include <stdio.h>
 
+#ifndef LINES
+#define LINES 3
+#endif
+#ifndef WMAX
+#define WMAX 4
+#endif
 #ifndef NMAX
-#define NMAX 7
+#define NMAX 8            // bytes in all lines together, newlines not counted
 #endif
-#ifndef TOKMAX
-#define TOKMAX 2          // at most TOKMAX bytes of the input are code (neither blank nor inside a comment)
-#endif
-#ifndef CMAX
-#define CMAX 2            // at most CMAX bytes of text after a `//` on its line
-#endif
-#define TOTAL_MAX (NMAX + 1)
-#define RB_MAX ((TOTAL_MAX + 2) / 3)      // a block needs at least "//\n"
+#define TOTAL_MAX (NMAX + LINES)
+#define RB_MAX LINES
 #define TEXT_MAX (TOTAL_MAX + 2)
 #define NOINL __attribute__((noinline))
 
@@ -70,20 +73,44 @@ int CPPPreprocessor::InputFile::peek() {
   return (g_pos < g_nbytes) ? (int)(unsigned char)g_bytes[g_pos] : EOF;
 }
 
-// the real CPPPreprocessor::get (cppPreprocessor.cxx:3094) minus `delete infile`
+// CPPPreprocessor::get (cppPreprocessor.cxx:3094) on ONE non-nested input: at the end of the input the real code pops and
+// deletes the InputFile and synthesizes one '\n' ("just in case the file doesn't already end with one"), then returns EOF.
+// The copy synthesizes the newline but leaves _infile in place (as harness/c15_scanners.cxx does): a symbolic _infile turns
+// every get_file() into a merge of two CPPFile copies.  The inputs end with a newline and nothing is captured after it,
+// so no captured block sees the difference.
+static bool g_newline_given = false;
 int CPPPreprocessor::get() {
   if (_unget != '\0') { int c = _unget; _unget = '\0'; return c; }
-  if (_infile == nullptr) return EOF;
   int c = _infile->get();
-  while (c == EOF && _infile != nullptr) {
-    InputFile *infile = _infile;
-    _infile = infile->_parent;
+  if (c == EOF) {
+    if (g_newline_given) return EOF;
+    g_newline_given = true;
     c = '\n';
   }
   if (c == '\n') _start_of_line = true;
   else if (!isspace(c) && c != '#') _start_of_line = false;
   return c;
 }
+
+// std::string::_M_replace (libstdc++, reached from `comment->_comment = "//"`): its aliasing test `_M_disjunct(s)`
+// compares the addresses of the literal and of the string's buffer, which is no constant for the solver's front end; the
+// (infeasible) overlapping branch then moves bytes between unrelated objects with symbolic sizes and every byte array of
+// the program, the input included, becomes symbolic.  Replaced (cut) under CBMC by the one case that occurs: the whole
+// content of a string that uses its local buffer is replaced by a short text from somewhere else.
+#ifndef VERIF_NATIVE
+std::string *verif_string_replace(std::string *self, size_t pos, size_t len1, const char *s, size_t len2)
+  asm("_ZNSt7__cxx1112basic_stringIcSt11char_traitsIcESaIcEE10_M_replaceEmmPKcm");
+std::string *verif_string_replace(std::string *self, size_t pos, size_t len1, const char *s, size_t len2) {
+  if (pos != 0 || len1 != self->_M_string_length || len2 > 15 || self->_M_dataplus._M_p != self->_M_local_buf) {
+    ASSERT(false, "model: std::string::_M_replace outside the modelled case (whole content, local buffer, <= 15 bytes)");
+    ASSUME(false);
+  }
+  for (size_t k = 0; k < 15; k++) { if (k >= len2) break; self->_M_local_buf[k] = s[k]; }
+  self->_M_local_buf[len2] = 0;
+  self->_M_string_length = len2;
+  return self;
+}
+#endif
 
 static NOINL CPPPreprocessor *make_pp(const char *bytes, int total) {
   CPPPreprocessor *pp = new CPPPreprocessor;
@@ -100,7 +127,7 @@ static NOINL CPPPreprocessor *make_pp(const char *bytes, int total) {
   CPPPreprocessor::InputFile *f = new CPPPreprocessor::InputFile;     // real constructor: line 0 / next line 1, col 1
   f->_in = nullptr;
   f->_lock_position = false;
-  g_bytes = bytes; g_nbytes = total; g_pos = 0;
+  g_bytes = bytes; g_nbytes = total; g_pos = 0; g_newline_given = false;
   f->_parent = nullptr;
   f->_prev_last_c = '\0';
   pp->_infile = f;
@@ -109,8 +136,8 @@ static NOINL CPPPreprocessor *make_pp(const char *bytes, int total) {
 
 static char pick_char() {
   unsigned char k = nondet_uchar();
-  ASSUME(k < 4);
-  return k == 0 ? '/' : k == 1 ? 'a' : k == 2 ? ' ' : '\n';
+  ASSUME(k < 3);
+  return k == 0 ? '/' : k == 1 ? 'a' : ' ';
 }
 
 struct RefBlock { int first, last, col, len; char text[TEXT_MAX + 1]; };
@@ -169,29 +196,33 @@ static NOINL bool text_equal(const std::string &s, const RefBlock *rb) {
   return true;
 }
 
-extern "C" void harness_c05_cpp_comments() {
-  int n = nondet_int();
-  ASSUME(n >= 0 && n <= NMAX);
+static NOINL void scenario(const int *width) {
   static char b[TOTAL_MAX + 1];
-  for (int i = 0; i < NMAX; i++) { char c = pick_char(); b[i] = (i < n) ? c : '\n'; }
-  b[NMAX] = '\n';
-  int total = n + 1;                     // b[n] == '\n': the input ends with a newline
+  int total = 0;
+  for (int l = 0; l < LINES; l++) {
+    for (int j = 0; j < width[l]; j++) b[total++] = pick_char();
+    b[total++] = '\n';
+  }
 
   static Ref ref;
   reference(b, total, &ref);
-  // stated bounds on the shape of the input (they bound the loops of the lexer: tokens x blanks x comment bytes)
-  ASSUME(ref.ntokens <= TOKMAX && ref.maxtext <= CMAX);
 #ifdef EXCLUDE_EMPTY_COMMENT
   ASSUME(!ref.empty_comment);            // no `//` directly followed by the end of its line
 #endif
 
   CPPPreprocessor *pp = make_pp(b, total);
-  int c = pp->skip_whitespace(pp->get());
-  for (int t = 0; t < TOKMAX + 1; t++) {             // one round per code byte
-    if (c == EOF) break;
-    c = pp->skip_whitespace(pp->get());
+  int c = pp->get();
+  for (int l = 0; l < LINES; l++) {
+    for (int j = 0; j <= width[l]; j++) {
+      c = pp->skip_comment(c);           // a byte of line l, or its newline
+      if (c == '\n') break;              // the newline itself, or the one that ended a // comment
+      c = pp->get();
+    }
+    ASSERT(c == '\n', "C05 a // comment ends with its line");
+    c = pp->get();                       // first byte of the next line; after the last line the synthesized newline
   }
-  ASSERT(c == EOF, "C05 the whole input was read");
+  int last = pp->get();
+  ASSERT(c == '\n' && last == EOF, "C05 the whole input was read");
 
 #ifdef VERIF_NATIVE
   printf("input (%d bytes): \"", total);
@@ -217,5 +248,34 @@ extern "C" void harness_c05_cpp_comments() {
     ASSERT(text_equal(got->_comment, want), "C05 text of a // comment block");
     ++ci;
   }
+}
+
+#ifndef S_FROM
+#define S_FROM 0
+#endif
+#ifndef S_TO
+#define S_TO 1000000
+#endif
+extern "C" void harness_c05_cpp_comments() {
+  // every tuple of line widths (odometer), numbered; the entry runs the tuples S_FROM <= number < S_TO
+  int width[LINES];
+  for (int l = 0; l < LINES; l++) width[l] = 0;
+  int number = 0, run = 0;
+  for (;;) {
+    int sum = 0;
+    for (int l = 0; l < LINES; l++) sum += width[l];
+    if (sum <= NMAX) {
+      if (number >= S_FROM && number < S_TO) { scenario(width); run++; }
+      number++;
+    }
+    int l = 0;
+    while (l < LINES && width[l] == WMAX) width[l++] = 0;
+    if (l == LINES) break;
+    width[l]++;
+  }
+#ifdef VERIF_NATIVE
+  printf("%d width tuples, %d run\n", number, run);
+#endif
+  ASSERT(run > 0, "C05 (harness) the slice of width tuples is not empty");
   WITNESS();
 }
